@@ -119,7 +119,7 @@ func normaliseFuncKey(raw, pkgPath string) string {
 			star = "*"
 			recv = recv[1:]
 		}
-		if !strings.Contains(recv, ".") && !strings.Contains(recv, "/") {
+		if !strings.Contains(recv, ".") && !strings.Contains(recv, "/") && pkgPath != "" {
 			recv = pkgPath + "." + recv
 		}
 		return "(" + star + recv + ")" + rest
